@@ -42,8 +42,12 @@ pub static SPEC: Spec = Spec {
         "repeated_reads_with_pending_events",
         "repeated_reads_with_events_kept_alive",
         "ev:create_proof-served-or-failed:[]",
+        "ev:shared:append:[U,H]",
+        "ev:shared:get-missing:[G]",
+        "ev:shared:proof-accepted",
+        "ev:shared:replica-get-missing:[G]",
     ],
-    rule: "a case = one history on a writer (appends, empty batches, clears, reads of held / missing / cleared / out-of-range indices, refused appends on a read-only core, appends failing through an injected storage fault) or one replica session (honest, stale and must-refuse altered proofs) with 1-3 subscribers attached at random times; after EVERY public call every subscriber is drained (try_recv until empty) and the exact event list is compared with the expected list for that call (append => [DataUpgrade, Have{old length, batch size, false}]; accepted proof => DataUpgrade iff it carried an upgrade, then Have{index,1,false} iff it carried a block; get of an index not held => [Get{index}]; everything else => [] ; clear => [] or only drop announcements inside the cleared range); all live subscribers must see identical lists; at the end the union of announced Have(drop=false) ranges of each subscriber equals the set of blocks that became available while it was attached; bounded-exhaustive over the 8-symbol alphabet (L=4) with a read after every op, plus random; distinct = history/session hash",
+    rule: "a case = one history on a writer (appends, empty batches, clears, reads of held / missing / cleared / out-of-range indices, refused appends on a read-only core, appends failing through an injected storage fault) or one replica session (honest, stale and must-refuse altered proofs) with 1-3 subscribers attached at random times; after EVERY public call every subscriber is drained (try_recv until empty) and the exact event list is compared with the expected list for that call (append => [DataUpgrade, Have{old length, batch size, false}]; accepted proof => DataUpgrade iff it carried an upgrade, then Have{index,1,false} iff it carried a block; get of an index not held => [Get{index}]; everything else => [] ; clear => [] or only drop announcements inside the cleared range); all live subscribers must see identical lists; at the end the union of announced Have(drop=false) ranges of each subscriber equals the set of blocks that became available while it was attached; one case in six runs a writer history and a replica session through the SharedCore wrapper (two owners of one shared core, trait methods), same expectations; bounded-exhaustive over the 8-symbol alphabet (L=4) with a read after every op, plus random; distinct = history/session hash",
     assumptions: &["subscribers are always drained, so fewer than 32 events are pending (the property's bound)"],
     exhaustive_note: "all symbol sequences of length 4 over the 8-symbol alphabet, each op followed by reads of a held, a missing and an out-of-range index",
     hang_secs: 120,
@@ -517,6 +521,181 @@ fn repeated_reads(ctx: &mut Ctx, r: &mut Rng) -> Result<(), Fail> {
     Ok(())
 }
 
+/// The same announcements must come out when the core is used through the `SharedCore` wrapper
+/// (trait methods of `replication::shared_core`): appends, batches, reads of held / missing /
+/// out-of-range indices on a shared writer, then accepted proofs and reads on a shared replica.
+fn shared_history(ctx: &mut Ctx, r: &mut Rng, script: &mut Vec<Value>) -> Result<(), Fail> {
+    use hypercore::replication::{CoreInfo, CoreMethods, ReplicationMethods, SharedCore};
+    let run = |what: &str, got: Result<Vec<Ev>, String>, exp: &[Ev], si: usize| -> Result<(), Fail> {
+        let got = got.map_err(|e| fail("event-queue", e))?;
+        if got != exp {
+            let class = if got.len() > exp.len() { "extra-events" } else if got.len() < exp.len() { "missing-events" } else { "wrong-events" };
+            return Err(fail(format!("{class}:shared:{what}"), format!("subscriber {si} after {what} through SharedCore: got {got:?} expected {exp:?}")));
+        }
+        Ok(())
+    };
+    // ---- shared writer
+    let key = ops::key_from_seed(r.next_u64());
+    let world = World::new();
+    let core = match ops::build_core(&world, Some(ops::keypair(&key, true)), false, CacheMode::None) {
+        Ok(Ok(c)) => c,
+        other => return Err(fail("scenario:build", format!("{:?}", other.map(|x| x.map(|_| ()).map_err(|e| e.to_string()))))),
+    };
+    let shared = SharedCore::from_hypercore(core);
+    let other_owner = shared.clone();
+    let nsubs = 1 + r.below(2) as usize;
+    let mut rxs: Vec<Receiver<Event>> = (0..nsubs).map(|_| exec::block_on(shared.event_subscribe())).collect();
+    let mut blocks: Vec<Option<Vec<u8>>> = vec![];
+    let mut tag = 1u32;
+    let steps = 4 + r.below(14);
+    for _ in 0..steps {
+        let len = blocks.len() as u64;
+        // calls alternate between the two owners of the same shared core
+        let c = if r.chance(1, 2) { &shared } else { &other_owner };
+        let (what, exp): (String, Vec<Ev>) = match r.below(8) {
+            0 | 1 => {
+                let b = crate::rng::block_bytes(tag, gen::rand_block_len(r, 40) as usize);
+                tag += 1;
+                script.push(json!({"append": b.len()}));
+                match exec::call(c.append(&b)) {
+                    Ok(Ok(o)) if o.length == len + 1 => {}
+                    other => return Err(fail("scenario:append", format!("{:?}", other.map(|x| x.map(|o| o.length).map_err(|e| e.to_string()))))),
+                }
+                blocks.push(Some(b));
+                ctx.count("ev:shared:append:[U,H]");
+                ("append".into(), vec![Ev::Upgrade, Ev::Have(len, 1, false)])
+            }
+            2 => {
+                let k = r.below(4);
+                let batch: Vec<Vec<u8>> = (0..k).map(|i| crate::rng::block_bytes(tag + i as u32, gen::rand_block_len(r, 40) as usize)).collect();
+                tag += k as u32;
+                script.push(json!({"batch": k}));
+                match exec::call(c.append_batch(batch.clone())) {
+                    Ok(Ok(o)) if o.length == len + k => {}
+                    other => return Err(fail("scenario:append_batch", format!("{:?}", other.map(|x| x.map(|o| o.length).map_err(|e| e.to_string()))))),
+                }
+                blocks.extend(batch.into_iter().map(Some));
+                if k == 0 {
+                    ("empty-batch".into(), vec![])
+                } else {
+                    ("append".into(), vec![Ev::Upgrade, Ev::Have(len, k, false)])
+                }
+            }
+            3 | 4 | 5 => {
+                let ix = if r.chance(1, 3) { len + r.below(3) } else { r.below(len.max(1)) };
+                script.push(json!({"get": ix}));
+                let held = blocks.get(ix as usize).map(|b| b.is_some()).unwrap_or(false);
+                match exec::call(c.get(ix)) {
+                    Ok(Ok(v)) if v == blocks.get(ix as usize).cloned().flatten() => {}
+                    other => return Err(fail("scenario:get", format!("get({ix}): {:?}", other.map(|x| x.map(|y| y.map(|z| z.len())).map_err(|e| e.to_string()))))),
+                }
+                if held {
+                    ("get-held".into(), vec![])
+                } else {
+                    ctx.count("ev:shared:get-missing:[G]");
+                    ("get-missing".into(), vec![Ev::Get(ix)])
+                }
+            }
+            6 => {
+                let ix = r.below(len + 2);
+                let _ = exec::call(c.has(ix));
+                let _ = exec::call(c.info());
+                ("has+info".into(), vec![])
+            }
+            _ => {
+                if len == 0 {
+                    continue;
+                }
+                let s0 = r.below(len);
+                let e0 = (s0 + 1 + r.below(2)).min(len);
+                script.push(json!({"clear": [s0, e0]}));
+                let res = exec::call(async {
+                    let mut g = c.0.lock().await;
+                    g.clear(s0, e0).await
+                });
+                if !matches!(res, Ok(Ok(()))) {
+                    return Err(fail("scenario:clear", format!("{:?}", res.map(|x| x.map_err(|e| e.to_string())))));
+                }
+                for i in s0..e0 {
+                    blocks[i as usize] = None;
+                }
+                // clear: only drop announcements inside the range are tolerated
+                for (si, rx) in rxs.iter_mut().enumerate() {
+                    for e in drain(rx).map_err(|e| fail("event-queue", e))? {
+                        match e {
+                            Ev::Have(st, ln, true) if st >= s0 && st + ln <= e0 => {}
+                            other => return Err(fail("clear-announced:shared", format!("subscriber {si}: clear({s0},{e0}) emitted {other:?}"))),
+                        }
+                    }
+                }
+                continue;
+            }
+        };
+        for (si, rx) in rxs.iter_mut().enumerate() {
+            run(&what, drain(rx), &exp, si)?;
+        }
+    }
+    // ---- shared replica fed from the shared writer
+    let len = blocks.len() as u64;
+    if len == 0 {
+        return Ok(());
+    }
+    let rep = Replica::create(&key, CacheMode::None)?;
+    let rshared = SharedCore::from_hypercore(rep.core.unwrap());
+    let mut rrx: Vec<Receiver<Event>> = (0..nsubs).map(|_| exec::block_on(rshared.event_subscribe())).collect();
+    let mut rlen = 0u64;
+    let mut held: BTreeSet<u64> = BTreeSet::new();
+    for _ in 0..(2 + r.below(6)) {
+        let ix = r.below(len);
+        if blocks[ix as usize].is_none() {
+            continue;
+        }
+        let upgrade = if rlen < len { Some(hypercore::RequestUpgrade { start: rlen, length: len - rlen }) } else { None };
+        let nodes = match exec::call(rshared.missing_nodes(ix)) {
+            Ok(Ok(n)) => n,
+            other => return Err(fail("scenario:missing_nodes", format!("{:?}", other.map(|x| x.map_err(|e| e.to_string()))))),
+        };
+        script.push(json!({"fetch": ix, "upgrade": upgrade.is_some()}));
+        let proof = match exec::call(shared.create_proof(Some(hypercore::RequestBlock { index: ix, nodes }), None, None, upgrade.clone())) {
+            Ok(Ok(Some(p))) => p,
+            other => return Err(fail("scenario:create_proof", format!("{:?}", other.map(|x| x.map(|p| p.is_some()).map_err(|e| e.to_string()))))),
+        };
+        // serving through the shared writer announces nothing
+        for (si, rx) in rxs.iter_mut().enumerate() {
+            run("create_proof-served", drain(rx), &[], si)?;
+        }
+        match exec::call(rshared.verify_and_apply_proof(&proof)) {
+            Ok(Ok(true)) => {}
+            other => return Err(fail("scenario:verify", format!("{:?}", other.map(|x| x.map_err(|e| e.to_string()))))),
+        }
+        let mut exp = vec![];
+        if upgrade.is_some() {
+            exp.push(Ev::Upgrade);
+            rlen = len;
+        }
+        exp.push(Ev::Have(ix, 1, false));
+        held.insert(ix);
+        ctx.count("ev:shared:proof-accepted");
+        for (si, rx) in rrx.iter_mut().enumerate() {
+            run("proof-accepted", drain(rx), &exp, si)?;
+        }
+        let q = r.below(len + 2);
+        script.push(json!({"replica-get": q}));
+        match exec::call(rshared.get(q)) {
+            Ok(Ok(v)) if v.is_some() == held.contains(&q) => {}
+            other => return Err(fail("scenario:get", format!("replica get({q}): {:?}", other.map(|x| x.map(|y| y.map(|z| z.len())).map_err(|e| e.to_string()))))),
+        }
+        let exp = if held.contains(&q) { vec![] } else { vec![Ev::Get(q)] };
+        if !exp.is_empty() {
+            ctx.count("ev:shared:replica-get-missing:[G]");
+        }
+        for (si, rx) in rrx.iter_mut().enumerate() {
+            run("replica-get", drain(rx), &exp, si)?;
+        }
+    }
+    Ok(())
+}
+
 fn report_hist(ctx: &mut Ctx, i: usize, f: Fail, ops: &[Op], kind: &str) {
     if f.sig.starts_with("scenario:") || f.sig.starts_with("build:") {
         ctx.count("scenario_unusable");
@@ -547,8 +726,22 @@ fn run_case(ctx: &mut Ctx, id: u64) {
         }
         return;
     }
-    let which = if id < 71 { id - 64 } else { r.below(7) };
+    let which = if id < 71 { id - 64 } else if id % 6 == 0 { 7 } else { r.below(7) };
     match which {
+        7 => {
+            let mut script = vec![];
+            ctx.count("shared_core_histories");
+            let res = shared_history(ctx, &mut r, &mut script);
+            ctx.eval(Some(crate::rng::fnv(serde_json::to_string(&script).unwrap().as_bytes()) ^ 0x5A));
+            match res {
+                Ok(()) => {}
+                Err(f) if f.sig.starts_with("scenario:") || f.sig.starts_with("replica-build") => {
+                    ctx.count("scenario_unusable");
+                    ctx.notes.push(format!("scenario unusable: {} {}", f.sig, f.detail.chars().take(120).collect::<String>()));
+                }
+                Err(f) => ctx.violate(f.sig, f.detail, json!({"kind":"shared-core-history","script":script})),
+            }
+        }
         6 => {
             ctx.eval(Some(r.0));
             match repeated_reads(ctx, &mut r) {
